@@ -762,7 +762,10 @@ pub fn exec_op(sim: &Sim, op: &Op, in_cb: bool) {
                 let mut s = disp.as_source_mut();
                 if let Some(g) = s.inner.g.as_mut() {
                     g.interest = interest_of(i);
-                    g.mode = mode_of(m);
+                    // 9 = leave the mode as it is
+                    if m != 9 {
+                        g.mode = mode_of(m);
+                    }
                 }
             })
             .is_none()
@@ -773,7 +776,9 @@ pub fn exec_op(sim: &Sim, op: &Op, in_cb: bool) {
                 let mut st = sim.st.borrow_mut();
                 if let K::Generic(g) = &mut st.srcs.get_mut(id).unwrap().k {
                     g.interest = i;
-                    g.mode = m;
+                    if m != 9 {
+                        g.mode = m;
+                    }
                 }
             }
             drop(disp);
@@ -993,8 +998,15 @@ fn insert_generic(sim: &Sim, id: Id, fd: FdSpec, interest: u8, mode: u8, keep: b
             let st = sim.st.borrow();
             let Some(s) = st.srcs.get(&o) else { return };
             let K::Generic(g) = &s.k else { return };
-            if !g.released || s.indeterminate {
+            // the fd is free again: handed back by TakeSource, or its source was removed from the
+            // loop while the program still holds it (an unregistered Generic that is dropped
+            // later must not touch what the fd is registered for by then)
+            let removed_but_kept = s.kept && !s.inserted && s.token.is_some() && s.in_processing == 0 && !s.sh.unwrapped.get() && !s.old_loop;
+            if !(g.released || removed_but_kept) || s.indeterminate || g.unusable && !g.released {
                 return;
+            }
+            if !g.released {
+                sim.probe("fd_of_kept_removed_source_inserted_again");
             }
             // already re-inserted by somebody else - or by somebody who removed itself in its own
             // callback, which is still running (its fd leaves the poller when that ends)
